@@ -296,6 +296,25 @@ pub fn gen(ctx: &mut Ctx) {
             }
         }
     }
+    if si == 1 % sn {
+        // gap G3: blobs that are a SEQUENCE of packets around real signatures (junk / garbage-in-a-frame / second signature /
+        // trailing packets or unframed bytes / re-framed with every length format): the framing itself, and the whole read
+        // side (key ids, verification: the pgp parser now sees several packets per blob) under the allocation limit
+        let lead = gen_lead(&mut Rng::new(12), false);
+        for (i, pb) in crate::c02::packet_blobs_all_keys(ctx.seed).iter().enumerate() {
+            let blob = pb.bytes();
+            ctx.req(&format!("pgpframes {}", hx(&blob)));
+            if blob.is_empty() { continue; }
+            let mut s = GHeader::new();
+            match i % 4 {
+                0 => { s.push(268, 7, &TData::Bytes(blob.clone())); }
+                1 => { s.push(267, 7, &TData::Bytes(blob.clone())); }
+                2 => { s.push(1002, 7, &TData::Bytes(blob.clone())); }
+                _ => { s.push(278, 8, &TData::Strs(vec![crate::c02::b64_text(&blob)])); }
+            }
+            ctx.req(&format!("hostile {}", hx(&assemble(&lead, &s, 0, &GHeader::new(), &[]))));
+        }
+    }
     let base_a = small_built(1, true);
     let base_b = small_built(2, false);
     if si == 0 {
